@@ -3,8 +3,8 @@ import re
 from vcore import Case, Harness
 
 ID = 'C16'
-GEN = ['Hex', 'TraceState', 'B3']
-LEAN_TARGETS = ['OtelVerif.Props.C16']
+GEN = ['Hex', 'TraceState', 'B3', 'TabB3', 'TabHex']
+LEAN_TARGETS = ['OtelVerif.Props.C16', 'OtelVerif.Props.TabB3', 'OtelVerif.Props.TabHex', 'OtelVerif.Props.TabHexB']
 THEOREMS = ['Otel.Idx.splitString_eq', 'Otel.Idx.hexToBinary_eq'] + ['Otel.C16.' + t for t in (
     'gen_b3', 'gen_b3_multi_fixed', 'gen_jaeger', 'gen_header_names',
     'isSampled_iff', 'and_one_eq_sampledBit', 'fixed_multi_sampled_right', 'asis_multi_sampled_right_iff',
@@ -15,7 +15,8 @@ THEOREMS = ['Otel.Idx.splitString_eq', 'Otel.Idx.hexToBinary_eq'] + ['Otel.C16.'
     'b3_64bit_id_left_padded', 'jaeger_64bit_id_left_padded', 'b3_sampling_decision', 'b3_debug_is_sampled',
     'b3_missing_sampling_unsampled', 'jaeger_missing_flags_unsampled', 'jaeger_sampling_decision', 'b3_two_field_header_presents', 'b3_multi_without_sampled_presents',
     'b3_single_precedes_multi', 'b3_extract_valid_or_unchanged', 'jaeger_extract_valid_or_unchanged',
-    'b3_extract_iff', 'jaeger_extract_iff', 'never_oob', 'extract_valid_or_unchanged')]
+    'b3_extract_iff', 'jaeger_extract_iff', 'never_oob', 'extract_valid_or_unchanged')] + ['Otel.Tab.' + t for t in (
+    'tab_b3FlagsFromHex1', 'tab_b3FlagsFromHexShort', 'tab_b3InjectSingleChar', 'tab_b3InjectMultiSampled', 'tab_jaegerGetTraceFlags', 'tab_jaegerInjectChar', 'tab_hexToInt', 'tab_isValidHex1', 'tab_hexToBinary1', 'tab_hexToBinary2_digits', 'tab_hexToBinaryShort', 'tab_traceIdLower', 'tab_spanIdLower', 'tab_flagsLower', 'tab_flagsIsSampled', 'tab_flagsIsRandom', 'tab_hexToBinary2_cross', 'tab_tpFlagsByte', 'tab_tpInjectFlags')]
 HARNESSES = [Harness('f_c16', ['harness/f_c16.cc'])]
 H = 'f_c16'
 RULE = ('inject / round trip: all 256 flag bytes x random and edge ids x {B3 single, B3 multi, Jaeger}; extract: valid headers '
